@@ -74,6 +74,17 @@ def _set_ref(term, which: str, value: int):
     return None
 
 
+def filled_before(base, pos: int) -> dict:
+    """Slots of each table that hold an entry when flat row `pos` is reached."""
+    d = jspec.Decoder()
+    for _, _, r in flat_rows(base)[:pos]:
+        d.row(r)
+    if d.names is None:
+        return {"name": set(), "prefix": set(), "datatype": set()}
+    return {"name": set(d.names.slots), "prefix": set(d.prefixes.slots),
+            "datatype": set(d.datatypes.slots)}
+
+
 def mutants_at(base, pos: int):
     """Yield (class label, new frames) for every violation injectable at flat row `pos`."""
     rows = flat_rows(base)
@@ -153,6 +164,17 @@ def mutants_at(base, pos: int):
                     nt = _set_ref(t, which, val)
                     if nt is not None:
                         yield f"{which}-ref-{label}", replace(jwire.mkrow(kind, {**v, slot: nt}))
+            # a reference into a gap: an entry with an explicit id two beyond the filled part
+            # is sent first, then the slot in between (never filled) is referenced
+            filled = filled_before(base, pos)
+            for which in ("prefix", "name", "datatype"):
+                gap = next((g for g in range(1, sizes[which]) if g not in filled[which]
+                            and g + 1 not in filled[which]), None)
+                nt = _set_ref(t, which, gap) if gap else None
+                if nt is not None:
+                    fr = replace(jwire.mkrow(kind, {**v, slot: nt}))
+                    fr[fi][ri:ri] = [jwire.mkrow(which, {"id": gap + 1, "value": "zz"})]
+                    yield f"{which}-ref-gap-unfilled", fr
             if t[0] == "triple":
                 inner = dict(t[1])
                 for q in ("s", "p", "o"):
